@@ -7,6 +7,7 @@ from typing import Any, Dict, List, Optional, Tuple
 import yaml
 
 TEMPLATE_PREFIX = "x="
+NULL_CFG = -9999        # Library.tla NullCfg: a parameter configured as YAML null
 
 
 def g_num(n: int) -> float:
@@ -97,7 +98,7 @@ def _cfg(node: Dict[str, Any]) -> Dict[str, float]:
     cfg = node.get("cfg") or {}
     if isinstance(cfg, list):  # ToJson of the empty function <<>>
         return {}
-    return {k: float(v) for k, v in cfg.items()}
+    return {k: (None if int(v) == NULL_CFG else float(v)) for k, v in cfg.items()}
 
 
 _SIMPLE = {
@@ -209,7 +210,7 @@ def prog_key(prog: List[Dict[str, Any]]) -> str:
         s = n["kind"]
         cfg = _cfg(n)
         if cfg:
-            s += "(" + ",".join(f"{k}={v:g}" for k, v in sorted(cfg.items())) + ")"
+            s += "(" + ",".join(f"{k}=" + ("null" if v is None else f"{v:g}") for k, v in sorted(cfg.items())) + ")"
         ks = [k for k in (n.get("k1", ""), n.get("k2", "")) if k]
         if ks:
             s += "[" + ">".join(ks) + "]"
